@@ -103,6 +103,16 @@ class P5(histprop.HistProp):
         return cases
 
 
+def stale_cases():
+    """handles that outlive their file (and its directory): afterwards the observers must still tell one story"""
+    out = []
+    for c in hist.stale_handle_cases("c05", ["mem", "alt_mem", "ovl_mm"]):
+        c.names = ["a", "x", "c"]
+        finish(c, c.cfg)
+        out.append(c)
+    return out
+
+
 def corpus_cases():
     """every observer (and every other call) on every kind of target: a file, an empty / non-empty directory, missing
     names, below a file, the root"""
@@ -110,7 +120,7 @@ def corpus_cases():
         [c for c in hist.matrix_cases("c05t", ["mem", "alt_mem", "ovl_mm"]) if "_movefile_" in c.name or "_copyfile_" in c.name
          or "_movedir_" in c.name or "_copydir_" in c.name] + hist.wo_names_cases("c05") + \
         hist.size_cases("c05", ["mem", "phys", "alt_mem", "ovl_mm", "ovl_sub"]) + \
-        hist.neighbour_name_cases("c05", ["mem", "phys", "alt_mem", "alt_alt", "ovl_mm", "ovl_m"])
+        hist.neighbour_name_cases("c05", ["mem", "phys", "alt_mem", "alt_alt", "ovl_mm", "ovl_m"]) + stale_cases()
 
 
 P = P5("C05", CONFIGS, corpus_cases=corpus_cases, quick_cases=8, thorough_cases=100, nops=(8, 18), oracle=oracle, known=c03.known,
